@@ -10,6 +10,7 @@ def main : IO UInt32 :=
     | "c05" => C04.checkEng params lines
     | "c05n" => C01.check params lines
     | "c01re" => C01.check params lines
+    | "c01patient" => C01.check params lines
     | "c05d" => C04.checkEng params lines
     | "c05trk" => C05Trk.check params lines
     | _ => { bad := [s!"unknown family {family}"] })
